@@ -7,6 +7,7 @@ import (
 
 	"verif/mc/internal/common"
 	"verif/mc/internal/e1"
+	"verif/mc/internal/prog"
 )
 
 // permutations of 0..n-1
@@ -216,8 +217,99 @@ func C12(tier common.Tier) int {
 				rec(nil)
 			}
 		}
+		if sh.I == 0 {
+			implLayouts(run)
+		}
 	})
 	return run.Finish()
+}
+
+// implLayouts: @implements verdicts must not depend on which file of the package a declaration (together
+// with the import it needs) lives in, on the order of declarations, or on the names (= order) of the files.
+// Two interface packages share the package name "contract"; A refers to the first, B to the second, so
+// A and B can never share a file, and E needs no import.
+func implLayouts(run *common.Run) {
+	ia := prog.Pkg{Path: "ex.com/m/ia/contract", Files: []prog.File{{Name: "c.go", Src: "package contract\n\ntype X interface{ Do() }\n"}}}
+	ib := prog.Pkg{Path: "ex.com/m/ib/contract", Files: []prog.File{{Name: "c.go", Src: "package contract\n\ntype X interface {\n\tDo()\n\tUndo(n int) string\n}\n"}}}
+	type decl struct{ id, imp, src, want string }
+	decls := []decl{
+		{"A", "ex.com/m/ia/contract", "// A implements the first contract.\n// @implements contract.X\ntype A struct{}\n\nfunc (A) Do() {}\n", ""},
+		{"B", "ex.com/m/ib/contract", "// B claims the second contract but lacks Undo.\n// @implements contract.X\ntype B struct{}\n\nfunc (B) Do() {}\n", "IMPL03"},
+		{"E", "", "type Local interface{ Run() }\n\n// E claims a local interface.\n// @implements Local\ntype E struct{}\n", "IMPL03"},
+		{"F", "", "// F names a package no file imports.\n// @implements zz.Nope\ntype F struct{}\n", "IMPL01"},
+	}
+	names := [][2]string{{"a.go", "b.go"}, {"z.go", "y.go"}}
+	n := 0
+	for assign := 0; assign < 16; assign++ { // file of A,B,E,F
+		f := func(i int) int { return (assign >> i) & 1 }
+		if f(0) == f(1) {
+			continue // A and B need different files
+		}
+		for _, order := range perms(4) {
+			for _, nm := range names {
+				var files [2]strings.Builder
+				var imps [2][]string
+				for _, di := range order {
+					d := decls[di]
+					fi := f(di)
+					if d.imp != "" {
+						imps[fi] = append(imps[fi], d.imp)
+					}
+				}
+				lineOf := map[string][2]int{} // decl id -> (file, line of the type spec)
+				for fi := 0; fi < 2; fi++ {
+					files[fi].WriteString("package impl\n\n")
+					for _, im := range imps[fi] {
+						files[fi].WriteString("import \"" + im + "\"\n\nvar _ contract.X\n\n")
+					}
+				}
+				for _, di := range order {
+					d := decls[di]
+					fi := f(di)
+					cur := strings.Count(files[fi].String(), "\n")
+					for li, l := range strings.Split(d.src, "\n") {
+						if strings.HasPrefix(l, "type "+d.id+" ") {
+							lineOf[d.id] = [2]int{fi, cur + li + 1}
+						}
+					}
+					files[fi].WriteString(d.src + "\n")
+				}
+				p := &prog.Program{Pkgs: []prog.Pkg{ia, ib, {Path: "ex.com/m/impl", Files: []prog.File{{Name: nm[0], Src: files[0].String()}, {Name: nm[1], Src: files[1].String()}}}}}
+				// pass.Files follows file-name order
+				if nm[0] > nm[1] {
+					pk := &p.Pkgs[2]
+					pk.Files[0], pk.Files[1] = pk.Files[1], pk.Files[0]
+				}
+				res, err := prog.Run(p, prog.Opts{})
+				if err != nil {
+					common.Fatalf("impl layout program does not compile: %v\n%s", err, p.Text())
+				}
+				n++
+				got := map[string]string{}
+				for _, d := range res.Diags {
+					if d.Analyzer != "implementschecker" {
+						continue
+					}
+					for id, fl := range lineOf {
+						if d.File == "ex.com/m/impl/"+nm[fl[0]] && d.Line == fl[1] {
+							got[id] += d.Code
+						}
+					}
+				}
+				out := ""
+				for _, d := range decls {
+					out += d.id + "=" + got[d.id] + ";"
+					if got[d.id] != d.want {
+						run.Report(common.Cex{Sig: fmt.Sprintf("impl-layout|decl=%s|file=%d|names=%s|got=%s|want=%s", d.id, f(int(d.id[0]-'A')%4), nm[0], got[d.id], d.want),
+							Summary: fmt.Sprintf("@implements verdict of %s depends on the layout: assignment %04b, order %v, files %v: got [%s], every layout must give [%s] %s", d.id, assign, order, nm, got[d.id], d.want, res.Panic),
+							Detail:  map[string]any{"program": p.Text()}})
+					}
+				}
+				run.State(1, out, fmt.Sprintf("impl-layout|%d|%v|%s", assign, order, nm[0]))
+			}
+		}
+	}
+	run.Count("impl_layout_programs", n)
 }
 
 func pkgOf(inU bool) string {
